@@ -52,6 +52,8 @@ class Engine:
         self.nbranches = 0
         self._ev_cache = {}
         self._dcache = {}
+        self.bounds_seen = set()
+        self.assume_sites = set()
         self._vars = {}
         self._simp = {}
 
